@@ -471,6 +471,28 @@ pub fn check_c13(l: &Ledger) -> Vec<Violation> {
             _ => continue,
         };
         let CallResult::OkId(id) = &st.result else {
+            // a send may fail for want of capacity or buffer space, or because the application handed over an
+            // attribute that cannot be encoded and that the client does not own in this configuration; it must
+            // not fail on account of an attribute the client replaces
+            if let (CallResult::Err(ErrKind::Internal(msg)), Call::SendRequest { buf_len, .. } | Call::SendIndication { buf_len, .. }) = (&st.result, &st.call) {
+                let toks: Vec<&str> = attrs.split(',').collect();
+                let owns_mi = !matches!(l.cfg.mech, Mech::None);
+                let unowned_decoded = toks.iter().any(|t| match *t {
+                    "fpd" => !l.cfg.fp,
+                    "mid" | "mi256d" => !owns_mi,
+                    _ => false,
+                });
+                let has_decoded = toks.iter().any(|t| matches!(*t, "fpd" | "mid" | "mi256d"));
+                let lt_indication = l.cfg.mech == Mech::LongTerm && matches!(st.call, Call::SendIndication { .. });
+                if has_decoded && !unowned_decoded && *buf_len >= 1024 && !lt_indication && msg.contains("encode") {
+                    out.push(v(
+                        "C13",
+                        format!("C13/send-failed-on-application-attribute-the-client-replaces(mech={},fp={})", mech, l.cfg.fp),
+                        st.idx,
+                        format!("step {}: send failed ({}) although every non-encodable application attribute ({}) is one the client replaces", st.idx, msg, attrs),
+                    ));
+                }
+            }
             if !st.events.is_empty() && !matches!(st.result, CallResult::Panic(_)) {
                 out.push(v(
                     "C13",
